@@ -95,6 +95,9 @@ theorem step_nonlookup (c : Cache K V) (op : Op K V) (h : op.lookupKey = none) :
   | items => exact ⟨rfl, rfl, rfl, rfl⟩
   | eq o => exact ⟨rfl, rfl, rfl, rfl⟩
   | ne o => exact ⟨rfl, rfl, rfl, rfl⟩
+  | updateFail l => exact setAll_counters c l
+  | eqOther => exact ⟨rfl, rfl, rfl, rfl⟩
+  | neOther => exact ⟨rfl, rfl, rfl, rfl⟩
 
 /-- a lookup that finds the key: one hit, the stored value is returned, on_miss is not called,
     contents unchanged -/
@@ -380,6 +383,9 @@ theorem step_config (c : Cache K V) (op : Op K V) : (step c op).1.config = c.con
   | items => rfl
   | eq o => rfl
   | ne o => rfl
+  | updateFail l => simp only [step]; rw [setAll_config]
+  | eqOther => rfl
+  | neOther => rfl
 
 theorem step_copy_config (c : Cache K V) (op : Op K V) {c' n : Cache K V}
     (h : step c op = (c', .cache n)) : n.config = c.config := by
@@ -426,6 +432,26 @@ theorem step_copy_config (c : Cache K V) (op : Op K V) {c' n : Cache K V}
   | items => simp [step] at h
   | eq o => simp [step] at h
   | ne o => simp [step] at h
+  | updateFail l => simp [step] at h
+  | eqOther => simp [step] at h
+  | neOther => simp [step] at h
+
+omit [DecidableEq V] in
+theorem updFrom_config (c o : Cache K V) (ks : List K) :
+    (updFrom c o ks).1.config = c.config ∧ (updFrom c o ks).2.1.config = o.config := by
+  induction ks generalizing c o with
+  | nil => exact ⟨rfl, rfl⟩
+  | cons k ks ih =>
+    have hg := getitem_config o k
+    cases hco : o.getitem k with
+    | mk o' out =>
+      rw [hco] at hg
+      simp only [updFrom, hco]
+      cases out with
+      | val v =>
+        have := ih (c.setitem k v) o'
+        exact ⟨this.1.trans (setitem_config c k v), this.2.trans hg⟩
+      | _ => exact ⟨rfl, hg⟩
 
 theorem wstep_config {w : List (Cache K V)} {cfg : Bool × Nat × Option (K → OmRes V)}
     (h : ∀ c ∈ w, c.config = cfg) (op : WOp K V) : ∀ c ∈ (wstep w op).1, c.config = cfg := by
@@ -452,6 +478,119 @@ theorem wstep_config {w : List (Cache K V)} {cfg : Bool × Nat × Option (K → 
         · rw [hx]; have := step_config c op; rw [hs] at this; rw [this]; exact h c hcw
   | eqc i j => simp only [wstep]; split <;> exact h
   | nec i j => simp only [wstep]; split <;> exact h
+  | updc i j kw =>
+    simp only [wstep]
+    split
+    · rename_i c o hc ho
+      have hcw : c ∈ w := List.mem_of_getElem? hc
+      have how : o ∈ w := List.mem_of_getElem? ho
+      have hcfg := updFrom_config c o (keys o.d)
+      split
+      · exact h
+      · split
+        · rename_i c' o' hu
+          rw [hu] at hcfg
+          intro x hx
+          rcases List.mem_or_eq_of_mem_set hx with hx | hx
+          · rcases List.mem_or_eq_of_mem_set hx with hx | hx
+            · exact h x hx
+            · rw [hx, setAll_config, hcfg.1]; exact h c hcw
+          · rw [hx, hcfg.2]; exact h o how
+        · rename_i c' o' hu
+          rw [hu] at hcfg
+          intro x hx
+          rcases List.mem_or_eq_of_mem_set hx with hx | hx
+          · rcases List.mem_or_eq_of_mem_set hx with hx | hx
+            · exact h x hx
+            · rw [hx, hcfg.1]; exact h c hcw
+          · rw [hx, hcfg.2]; exact h o how
+    · exact h
+
+/-! `update` / `|=` with another cache as the argument -/
+
+/-- the source cache after `E[k]` has been evaluated for every key of `ks` -/
+def Cache.readAll (o : Cache K V) (ks : List K) : Cache K V := ks.foldl (fun o k => (o.getitem k).1) o
+
+omit [DecidableEq V] in
+/-- while dict and ring of the source are in step every `E[k]` is a hit: the target receives exactly
+    the source's items, the source keeps its contents, counts one hit per item and calls on_miss never -/
+theorem updFrom_hits {c o : Cache K V} (ho : Inv o) (l : List (K × V))
+    (hl : ∀ p ∈ l, lookup p.1 o.d = some p.2) :
+    updFrom c o (keys l) = (c.setAll l, o.readAll (keys l), true) ∧
+    (o.readAll (keys l)).d = o.d ∧ (o.readAll (keys l)).hit = o.hit + l.length ∧
+    (o.readAll (keys l)).miss = o.miss ∧ (o.readAll (keys l)).soft = o.soft ∧
+    (o.readAll (keys l)).omLog = o.omLog ∧ Inv (o.readAll (keys l)) ∧
+    (o.lru = false → (o.readAll (keys l)).ring = o.ring) ∧
+    (o.lru = true → (o.readAll (keys l)).ring = l.foldl (fun r p => toFront p.1 p.2 r) o.ring) := by
+  induction l generalizing c o with
+  | nil => exact ⟨rfl, rfl, rfl, rfl, rfl, rfl, ho, fun _ => rfl, fun _ => rfl⟩
+  | cons p l ih =>
+    have hp := hl p (by simp)
+    have hr : lookup p.1 o.ring = some p.2 := by rw [← ho.sync.agree, hp]
+    have hg := Cache.getitem_hit hr
+    have hinv := Cache.getitem_inv ho p.1
+    rw [hg] at hinv
+    have := ih (c := c.setitem p.1 p.2) hinv (fun q hq => hl q (List.mem_cons_of_mem _ hq))
+    obtain ⟨h1, h2, h3, h4, h5, h6, h7, h8, h9⟩ := this
+    simp only [keys_cons, updFrom, hg, Cache.readAll, List.foldl_cons, Cache.setAll] at *
+    refine ⟨h1, h2, by rw [h3]; simp only [List.length_cons]; omega, h4, h5, h6, h7, ?_, ?_⟩
+    · intro hlru; rw [h8 hlru]; simp [hlru]
+    · intro hlru; rw [h9 hlru]; simp [hlru]
+
+/-- remove several keys -/
+def eraseKeys (ks : List K) (r : List (K × V)) : List (K × V) := ks.foldl (fun r k => eraseKey k r) r
+
+omit [DecidableEq V] in
+theorem eraseKey_snoc_ne {k : K} (x : List (K × V)) (p : K × V) (h : p.1 ≠ k) :
+    eraseKey k (x ++ [p]) = eraseKey k x ++ [p] := by
+  induction x with
+  | nil => simp [eraseKey, h]
+  | cons q x ih => simp only [List.cons_append, eraseKey]; split <;> simp [ih]
+
+omit [DecidableEq V] in
+theorem eraseKeys_snoc (ks : List K) (x : List (K × V)) (p : K × V) (h : p.1 ∉ ks) :
+    eraseKeys ks (x ++ [p]) = eraseKeys ks x ++ [p] := by
+  induction ks generalizing x with
+  | nil => rfl
+  | cons k ks ih =>
+    simp only [List.mem_cons, not_or] at h
+    simp only [eraseKeys, List.foldl_cons] at ih ⊢
+    rw [eraseKey_snoc_ne x p h.1, ih _ h.2]
+
+omit [DecidableEq V] in
+/-- moving every item of `l` to the recent end, in order, leaves the other items in front and `l` behind -/
+theorem foldl_toFront (l r : List (K × V)) (hn : (keys l).Nodup) :
+    l.foldl (fun r p => toFront p.1 p.2 r) r = eraseKeys (keys l) r ++ l := by
+  induction l generalizing r with
+  | nil => simp [eraseKeys]
+  | cons p l ih =>
+    simp only [keys_cons, List.nodup_cons] at hn
+    simp only [List.foldl_cons, keys_cons]
+    rw [ih _ hn.2]
+    unfold toFront
+    have : (p.1, p.2) = p := rfl
+    rw [this, eraseKeys_snoc _ _ _ hn.1]
+    simp [eraseKeys]
+
+omit [DecidableEq V] in
+theorem eraseKeys_all (ks : List K) (r : List (K × V)) (hn : (keys r).Nodup) (h : ∀ k ∈ keys r, k ∈ ks) :
+    eraseKeys ks r = [] := by
+  induction ks generalizing r with
+  | nil =>
+    cases r with
+    | nil => rfl
+    | cons q r => have := h q.1 (by simp); simp at this
+  | cons k ks ih =>
+    simp only [eraseKeys, List.foldl_cons]
+    apply ih _ (nodup_eraseKey k r hn)
+    intro k' hk'
+    have h1 : k' ∈ keys r := mem_keys_eraseKey hk'
+    have h2 : k' ≠ k := fun e => not_mem_keys_eraseKey k r hn (e ▸ hk')
+    have := h k' h1
+    simp only [List.mem_cons] at this
+    rcases this with e | this
+    · exact absurd e h2
+    · exact this
 
 theorem wrun_config {w : List (Cache K V)} {cfg : Bool × Nat × Option (K → OmRes V)}
     (h : ∀ c ∈ w, c.config = cfg) (ops : List (WOp K V)) : ∀ c ∈ wrun w ops, c.config = cfg := by
